@@ -3,6 +3,22 @@
 #include <math.h>
 #include <stdlib.h>
 
+/* JTIOSUE_QUBOVERT_VERIF: optional step trace for external trace validation.
+   Off unless the environment has JTIOSUE_QUBOVERT_VERIF=1 and
+   JTIOSUE_QUBOVERT_VERIF_TRACE=<file>; add-only and flow-neutral (the random
+   variate is peeked from a copy of the generator state, never consumed). */
+#include <stdio.h>
+static FILE *qv_tr = NULL;
+static long qv_left = 0;
+static FILE *qv_trace_open(void) {
+    const char *g = getenv("JTIOSUE_QUBOVERT_VERIF");
+    const char *p = getenv("JTIOSUE_QUBOVERT_VERIF_TRACE");
+    const char *m = getenv("JTIOSUE_QUBOVERT_VERIF_TRACE_MAX");
+    qv_left = m ? atol(m) : 2000000000L;
+    if(g && g[0] == '1' && p && p[0]) return fopen(p, "a");
+    return NULL;
+}
+
 
 void compute_flip_dE(
     double *flip_spin_dE,
@@ -182,6 +198,8 @@ void single_anneal_quso(
         for(j=0; j<len_state; j++) {
             i = in_order ? j : rand_int(rng, len_state);
             dE = flip_spin_dE[i];
+            int qv_before = state[i]; double qv_u = -1.;
+            if(qv_tr) { rng_t qv_c = *rng; qv_u = rand_double(&qv_c); }
             if(dE <= 0 || (T > 0 && rand_double(rng) < exp(-dE / T))) {
                 recompute_flip_dE(
                     i, flip_spin_dE, state,
@@ -189,6 +207,11 @@ void single_anneal_quso(
                     index
                 );
                 state[i] *= -1;
+            }
+            if(qv_tr && qv_left > 0) {
+                fprintf(qv_tr, "S %d %d %d %a %a %a %d\n", t, j, i, dE, T,
+                        qv_u, state[i] != qv_before);
+                qv_left--;
             }
         }
     }
@@ -332,6 +355,12 @@ void anneal_quso(  // updates states and values in place
             }
         }
 
+        if(i == 0) qv_tr = qv_trace_open();
+        if(qv_tr) {
+            fprintf(qv_tr, "A %d %d", i, len_state);
+            for(j=0; j<len_state; j++) fprintf(qv_tr, " %d", state[j]);
+            fprintf(qv_tr, "\n");
+        }
         // run simulated annealing, updates `state` in place.
         single_anneal_quso(
             len_state, state,
@@ -346,7 +375,13 @@ void anneal_quso(  // updates states and values in place
         for(j=0; j<len_state; j++) {
             states[i * len_state + j] = state[j];
         }
+        if(qv_tr) {
+            fprintf(qv_tr, "E %d %a", i, values[i]);
+            for(j=0; j<len_state; j++) fprintf(qv_tr, " %d", state[j]);
+            fprintf(qv_tr, "\n");
+        }
     }
+    if(qv_tr) { fclose(qv_tr); qv_tr = NULL; }
 
     free(index); free(state);
 }
